@@ -216,10 +216,30 @@ func (d c17) executeGit(c *core.Case) (res *core.Result) {
 
 	// Attribution: did B complete between A's first read of the log tip and A's last one before its commit?
 	firstRead, lastRead := -1, -1
+	// The window of the open finding C17-K1 closes at the read inside the
+	// *first* attempt to commit the log entry: once that commit object exists
+	// the compare-and-set must refuse an overtaken writer, so a writer that
+	// still succeeds afterwards (a retry that re-reads the tip, say) is not
+	// what K1 describes. The first attempt is the first commit-tree that is
+	// followed by an update-ref of the log before the next commit-tree.
 	lastCommitTree := len(callsA)
 	for i, a := range callsA {
-		if a[0] == "commit-tree" {
-			lastCommitTree = i // the log entry's own commit is the last one an operation makes
+		if a[0] != "commit-tree" {
+			continue
+		}
+		isLog := false
+		for _, b := range callsA[i+1:] {
+			if b[0] == "commit-tree" {
+				break
+			}
+			if b[0] == "update-ref" && strings.Contains(strings.Join(b, " "), rsl.Ref) {
+				isLog = true
+				break
+			}
+		}
+		if isLog {
+			lastCommitTree = i
+			break
 		}
 	}
 	for i, a := range callsA {
